@@ -440,6 +440,7 @@ def run_instance(harness, name, params, *, known=(), opts=None, pinned=None):
         outcome = "raised:" + obs["raised"].name if isinstance(obs, dict) and isinstance(obs.get("raised"), Raised) else "result"
         res["outcomes"][outcome] = res["outcomes"].get(outcome, 0) + 1
         obligations = [(lab, f) for lab, f in harness.oracle(cx, params, x, obs)]
+        obligations += [(lab, f) for lab, f in harness.invariants(cx, params, x, obs)]
         hints = harness.witness_hints(cx, params, x) or ()
         terms = []
         for lab, f in obligations:
